@@ -79,6 +79,47 @@ Fixpoint words_ok (prev_bare : bool) (ws : list aword) : bool :=
   | w :: r => word_ok w && (negb prev_bare || negb (match w_gap w with [] => true | _ => false end)) && words_ok (is_bare w) r
   end.
 
+(* ---------------- well-formed documents ----------------
+   indentation and trailing space are blanks (space, tab, CR); no newline or NUL inside a line; bare words contain no CR;
+   a directive does not start like a comment or a section, the first word of a section line does not start with '/';
+   every line, with its newline, fits into the line buffer ([maxl] = MAX_LINESIZE - 1 characters) *)
+Definition ws3 (b : list N) : bool := forallb (fun c => (c =? 32) || (c =? 9) || (c =? 13)) b.
+Definition dword_ok (w : aword) : bool :=
+  match w_style w with
+  | Bare => forallb (fun c => negb (c =? 13) && negb (c =? 10)) (w_text w)
+  | Quoted _ _ => forallb (fun c => negb (c =? 10)) (w_text w)
+  end.
+Definition first_ok (dir : bool) (ws : list aword) : bool :=
+  match ws with
+  | [] => false
+  | w :: _ =>
+      match w_style w with
+      | Bare => if dir then negb (hdn (w_text w) =? 35) && negb (hdn (w_text w) =? 60)
+                else negb (match w_gap w with [] => true | _ => false end) || negb (hdn (w_text w) =? 47)
+      | Quoted _ _ => true
+      end
+  end.
+Definition fits (maxl : nat) (line : list N) : bool := Nat.ltb (length line) maxl.
+Fixpoint wf_node (maxl : nat) (n : anode) : bool :=
+  match n with
+  | NComment ind text => ws3 ind && forallb (fun c => negb (c =? 10) && negb (c =? 0)) text && fits maxl (ind ++ 35 :: text)
+  | NBlank sp => ws3 sp && fits maxl sp
+  | NDir ind ws tr =>
+      ws3 ind && ws3 tr && words_ok false ws && forallb dword_ok ws && first_ok true ws && fits maxl (ind ++ render_words ws ++ tr)
+  | NSect ind ws tr body cind cname ctr =>
+      ws3 ind && ws3 tr && words_ok false ws && forallb dword_ok ws && first_ok false ws && fits maxl (ind ++ 60 :: render_words ws ++ 62 :: tr) &&
+      (fix all (l : list anode) : bool := match l with [] => true | x :: r => wf_node maxl x && all r end) body &&
+      ws3 cind && ws3 ctr && bare_ok cname && forallb (fun c => negb (c =? 13) && negb (c =? 10)) cname &&
+      fits maxl (cind ++ 60 :: 47 :: cname ++ 62 :: ctr)
+  end.
+Definition wf_nodes (maxl : nat) (d : list anode) : bool := forallb (wf_node maxl) d.
+Fixpoint adepth (n : anode) : N :=
+  match n with
+  | NSect _ _ _ body _ _ _ => 1 + (fix mx (l : list anode) : N := match l with [] => 0 | x :: r => N.max (adepth x) (mx r) end) body
+  | _ => 0
+  end.
+Definition adepths (d : list anode) : N := fold_right (fun n a => N.max (adepth n) a) 0 d.
+
 (* ---------------- what the option table declares ---------------- *)
 Definition take_count (take : N) : option N := let k := N.land take 255 in if k =? 255 then None else Some k.   (* None = any *)
 (* declared type of argument j >= 1: 1 int, 2 float, 3 bool, 0 string.  Bits 8.., 16.., 24.. for arguments 1..5; bits 13, 21, 29 for the rest *)
